@@ -28,6 +28,7 @@ ASSUMPTIONS = ['hits cropped above MSA+buffer are excepted through the reference
 B_VARIANTS = [
     {},
     {'MSA': 3000.0, 'MSA_HIT_BUFFER': 1500.0},
+    {'MSA': 10000.0},
     {'MSA': 3000.0, 'MSA_HIT_BUFFER': 0.0},
     {'MSA': 1200.0, 'MSA_HIT_BUFFER': 100.0},
     {'SLICING_PRMS': {'distance_threshold': 0.05}},
@@ -43,7 +44,8 @@ def _b_scenes(tier):
     D = _deckfam.D
     sc = (_deckfam.two_deck_scenes(tier, rich=False) + _deckfam.two_ceilo_scenes(tier) + _deckfam.chain_scenes(tier)
           + _deckfam.split_scenes(tier) + _deckfam.overlap_scenes(tier) + _deckfam.degenerate_scenes(tier)
-          + _deckfam.w119_scenes(tier) + _deckfam.disordered_scenes(tier) + _deckfam.double_split_scenes(tier) + _deckfam.streak_scenes(tier))
+          + _deckfam.w119_scenes(tier) + _deckfam.disordered_scenes(tier) + _deckfam.double_split_scenes(tier) + _deckfam.streak_scenes(tier)
+          + _deckfam.single_survivor_scenes(tier)[:2])
     # three ceilometers, two decks forming one group split in two (exclusion must not change the accounting)
     sc.append(('3c:split', D({'h': 1500., 'n': 30, 'pattern': 'jitter'}, {'h': 1950., 'n': 30, 'pattern': 'jitter'}, T=30,
                              ceilos=['a', 'b', 'c'])))
